@@ -79,8 +79,9 @@ def main():
     out_dir = os.path.join(VERIF, "seeded", name)
     if ok:
         os.makedirs(out_dir, exist_ok=True)
-        shutil.copyfile(patch, os.path.join(out_dir, "patch.diff"))
-        shutil.copyfile(demo, os.path.join(out_dir, "demo_test.go"))
+        if os.path.abspath(seed) != os.path.abspath(out_dir):
+            shutil.copyfile(patch, os.path.join(out_dir, "patch.diff"))
+            shutil.copyfile(demo, os.path.join(out_dir, "demo_test.go"))
         old = {}
         mp = os.path.join(out_dir, "meta.json")
         if os.path.exists(mp):
